@@ -63,4 +63,25 @@ theorem f16_keyerror_witness : targetCtx keyErrorSituation = none ∧ GlobalsKey
     | some c => simp [h] at this
   · intro k; simp [keyErrorSituation, newContext, Env.keys]
 
+/-- Third face: inside a `scoped` block the context is `Context.derived(…)`, created with `globals=None`: its
+    `globals_keys` are empty, so `GlobalsKeysOf` — the well-formedness hypothesis of `import_ctx` — does not hold and
+    the import sees none of the importing template's globals. -/
+def scopedBlockSituation : Situation String :=
+  { ctx := newContext [] (some (rootContext [("g", "G")] []).getAll) true []
+    locals := []
+    srcGlobals := [("g", "G")]
+    tgtGlobals := []
+    kind := .imp
+    withCtx := false }
+
+theorem f16_scoped_block_witness :
+    ¬ GlobalsKeysOf scopedBlockSituation ∧
+    (targetCtx scopedBlockSituation).map (fun c => c.resolve "g") = some none ∧
+    SpecCtxFlow.importSees false (Locals.val scopedBlockSituation.locals) scopedBlockSituation.ctx.resolve
+      scopedBlockSituation.tgtGlobals.get scopedBlockSituation.srcGlobals.get "g" = some "G" := by
+  refine ⟨?_, by decide, by decide⟩
+  intro h
+  have := (h "g").mpr (by simp [scopedBlockSituation, Env.keys])
+  simp [scopedBlockSituation, newContext, Env.keys] at this
+
 end JinjaV.Findings.F16
